@@ -276,6 +276,41 @@ class Start(ObsSpec):
         ex.oblige("raises[failed emitter stopped]", ex.ghost["stopped"].t[f])
 
 
+class ObserverInit(ObsSpec):
+    """base case: a new observer has an empty registry, which satisfies the class invariant"""
+    qualname, prop = "BaseObserver.__init__", PROP
+
+    def __init__(self, W):
+        self.W, self.world = W, W
+        self.var_types = {"self._watches": TSet(W.Watch), "self._emitters": TSet(W.Emitter), "self._emitter_for_watch": W.TE}
+
+    def on_field(self, ex, obj, field, write):
+        pass
+
+    def globals(self):
+        W = self.W
+        return {"EventDispatcher.__init__": lambda ex, recv, a, k, n: None, "threading.RLock": lambda ex, a, k, n: VOpaque("lock", "observer._lock"),
+                "defaultdict": lambda ex, a, k, n: W.TH.empty()}
+
+    def setup(self, ex):
+        self.me = VObj("BaseObserver")
+        return {"self": self.me, "emitter_class": VOpaque("callable", lambda *a: None), "timeout": VOpaque("timeout")}
+
+    def post(self, ex, result):
+        W = self.W
+        try:
+            v = W.view(ex, self.me)
+        except KeyError as e:
+            ex.oblige(f"post[registry field {e} is initialised]", False)
+            return
+        w, e = z3.Const("pw", W.WS), z3.Const("pe", W.ES)
+        ex.oblige("post[no watch, no emitter, no handler]", z3.And(z3.ForAll([w], z3.And(z3.Not(v["watches"][w]), z3.Not(v["E"].dom[w]), W.hview(v["H"], w) == z3.K(W.HS, z3.BoolVal(False)))), z3.ForAll([e], z3.Not(v["emitters"][e]))))
+        for nm, f in W.inv(v):
+            ex.oblige(f"post[invariant established:{nm}]", f)
+        lk = ex.heap.get((self.me.id, "_lock"))
+        ex.oblige("post[one re-entrant lock protects the registry]", isinstance(lk, VOpaque) and lk.kind == "lock")
+
+
 # ------------------------------------------------------------------------------------------------ ObservedWatch
 class WatchWorld:
     def __init__(self):
@@ -387,10 +422,10 @@ def _z(t):
 def make_specs():
     W = ObsWorld()
     WW = WatchWorld()
-    return [Schedule(W), Unschedule(W), UnscheduleAll(W), ClearEmitters(W), AddHandler(W), RemoveHandler(W), Start(W)] + [WatchSpec(WW, n) for n in ("__init__", "key", "__eq__", "__ne__", "__hash__")]
+    return [ObserverInit(W), Schedule(W), Unschedule(W), UnscheduleAll(W), ClearEmitters(W), AddHandler(W), RemoveHandler(W), Start(W)] + [WatchSpec(WW, n) for n in ("__init__", "key", "__eq__", "__ne__", "__hash__")]
 
 
-EXPECTED_CLAUSES = ["schedule.raises[handlers unchanged]", "schedule.raises[emitter map unchanged]", "schedule.post[handler added to this watch]", "schedule.post[invariant:emitters=ran(E)]",
+EXPECTED_CLAUSES = ["BaseObserver.__init__.post[invariant established:emitters=ran(E)]", "schedule.raises[handlers unchanged]", "schedule.raises[emitter map unchanged]", "schedule.post[handler added to this watch]", "schedule.post[invariant:emitters=ran(E)]",
                     "unschedule.post[E' = E - w]", "unschedule.post[handlers of other watches untouched]", "unschedule_all.post[no handler anywhere]", "start.raises[the failed emitter is removed]",
                     "ObservedWatch.__eq__.post[equal iff", "ObservedWatch.__init__.post[filter None iff", "remove_handler_for_watch.post[handler removed]"]
 CANARIES = [
